@@ -101,6 +101,9 @@ fn main() {
         if a.len() == 3 && a[1] == "--child-gen" {
             std::process::exit(props::c19::child_gen(&a[2]));
         }
+        if a.len() == 4 && a[1] == "--child-write-concurrent" {
+            std::process::exit(props::c13::child_write_concurrent(&a[2], a[3].parse().unwrap_or(0)));
+        }
         if a.len() == 6 && a[1] == "--child-read-graph" {
             std::process::exit(props::c13::child_read_graph(&a[2], a[3] == "1", a[4].parse().unwrap_or(0), &a[5]));
         }
